@@ -137,6 +137,36 @@ func NewDIDOps(kt string, code uint, name string) *DIDOps {
 	return d
 }
 
+// NewRichDIDOps is NewDIDOps with unusual content: non-ASCII and escaped characters, nested anchor-origin objects,
+// several patches per delta, a kid header, a nonce in the signing keys and explicit anchoring windows.
+func NewRichDIDOps(kt string, code uint, name string) *DIDOps {
+	d := &DIDOps{Keys: map[string]*Key{}, Req: map[string][]byte{}, Origin: map[string]interface{}{}}
+	for _, n := range []string{"r0", "r1", "u0", "u1", "v0"} {
+		d.Keys[n] = NewKey(kt, "richdid/"+name+"/"+n)
+	}
+	nonce := B64([]byte("fedcba9876543210"))
+	c := func(n string) string { return CommitN(d.Keys[n], code, nonce) }
+	d.Origin["C"] = map[string]interface{}{"ö": []interface{}{1.5, true, nil, "\u2028 \"q\" \\ /"}, "a": map[string]interface{}{"b": "c"}}
+	d.Origin["R"] = "https://origin.example/é?x=1&y=<2>"
+	rich := []interface{}{
+		map[string]interface{}{"action": "add-public-keys", "publicKeys": []interface{}{KeyEntry("k-1_A", d.Keys["v0"], []interface{}{"authentication", "assertionMethod"})}},
+		map[string]interface{}{"action": "add-services", "services": []interface{}{map[string]interface{}{"id": "svc", "type": "T", "serviceEndpoint": []interface{}{"https://example.com/ü", map[string]interface{}{"n": 1e21}}, "extra": "\u0000\u001f"}}},
+		JSONPatch(JOp("add", "/né", map[string]interface{}{"deep": []interface{}{[]interface{}{}, map[string]interface{}{}}})),
+	}
+	req, suffix := Create(&CreateSpec{RecoveryCommit: c("r0"), UpdateCommit: c("u0"), Code: code, AnchorOrigin: d.Origin["C"], Type: "t-é", Patches: rich})
+	d.Suffix = suffix
+	d.Req["C"] = req
+	jw := &JWSOpts{Kid: "kid-ü"}
+	d.Req["U"] = (&OpSpec{Type: "update", Suffix: suffix, SignKey: d.Keys["u0"], Nonce: nonce, NextUpdate: c("u1"), Code: code, From: 1, Until: 1 << 40, JWS: jw, Patches: rich[1:]}).Build()
+	d.Req["R"] = (&OpSpec{Type: "recover", Suffix: suffix, SignKey: d.Keys["r0"], Nonce: nonce, NextRecov: c("r1"), NextUpdate: c("v0"), Code: code, Origin: d.Origin["R"], From: 1, JWS: jw, Patches: rich}).Build()
+	d.Req["D"] = (&OpSpec{Type: "deactivate", Suffix: suffix, SignKey: d.Keys["r0"], Nonce: nonce, Code: code, Until: 1 << 40, JWS: jw}).Build()
+	d.Req["U2"] = (&OpSpec{Type: "update", Suffix: suffix, SignKey: d.Keys["u1"], Nonce: nonce, NextUpdate: c("u0"), Code: code, Patches: rich[:1]}).Build()
+	d.Req["Ux"] = (&OpSpec{Type: "update", Suffix: suffix, SignKey: d.Keys["u0"], Nonce: nonce, NextUpdate: c("u1"), Code: code, From: ExpiredMark, Until: ExpiredMark + 1, Patches: rich[1:]}).Build()
+	d.Req["Rx"] = (&OpSpec{Type: "recover", Suffix: suffix, SignKey: d.Keys["r0"], Nonce: nonce, NextRecov: c("r1"), NextUpdate: c("v0"), Code: code, From: ExpiredMark, Until: ExpiredMark + 1, Patches: rich}).Build()
+	d.Req["Dx"] = (&OpSpec{Type: "deactivate", Suffix: suffix, SignKey: d.Keys["r0"], Nonce: nonce, Code: code, From: ExpiredMark, Until: ExpiredMark + 1}).Build()
+	return d
+}
+
 // ExpiredMark is the anchorFrom value the harness' time validator treats as expired.
 const ExpiredMark = 7777
 
